@@ -84,6 +84,14 @@ def lemma(fn=None, **kw):
     return fn
 
 
+def scenario(fn=None, **kw):
+    """prover-only construct (a sequence of calls executed against contracts); natively it is just recorded"""
+    if fn is None:
+        return lambda f: scenario(f)
+    REGISTRY.setdefault('scenarios', {})[fn.__name__] = fn
+    return fn
+
+
 def fields(cname, **kw):
     REGISTRY['fields'].setdefault(cname, {}).update(kw)
 
